@@ -42,7 +42,7 @@ ANYTOK = {'k': 'any', 'v': 0}
 INTERNAL = ('NameError', 'UnboundLocalError')
 # repair switches already applied in the tree under test, as letters for MC_Norm (layer C mirrors the CURRENT code):
 #   i index-neg-oob   n nob-badlen   s spl-str-split   z aob-size1
-FIXED_IN_TREE = '-'
+FIXED_IN_TREE = 'inz'
 GROUPS = ('axes', 'index', 'nob', 'spl', 'misc', 'num')
 CORRUPT_ID = 999999999
 
@@ -67,12 +67,14 @@ class Pick(object):
     """Deterministic rotation through the spellings of one abstract argument."""
 
     def __init__(self, base):
-        self.k = int(base)
+        self.k = (int(base) * 2654435761 + 40503) & 0x7fffffff
         self.used = []
 
     def __call__(self, options, tag=None):
-        self.k += 1
-        o = options[self.k % len(options)]
+        # a linear congruential step per choice: consecutive choices over option lists of different lengths are not
+        # correlated (a plain counter modulo the list length never produces some combinations)
+        self.k = (self.k * 1103515245 + 12345) & 0x7fffffff
+        o = options[(self.k >> 9) % len(options)]
         if tag:
             self.used.append('%s=%s' % (tag, getattr(o, '__name__', o)))
         return o
@@ -408,6 +410,12 @@ def make_call(fn, a, pick):
         else:
             o, _ = outcome(U.array_str, arr, nprint=a['nprint'], _post=parse_array_str)
         return o, x, 'array_str(%s, nprint=%d)' % (repr(arr).replace('\n', ''), a['nprint'])
+    if fn == 'isstr':
+        v = spell(a['x'], pick)
+        if isinstance(v, str) and pick([0, 1], 'np-str'):
+            v = np.str_(v)
+        o, _ = outcome(U.is_string, v, _post=lambda r: V('bool', int(r)) if isinstance(r, (bool, np.bool_)) else proj(r))
+        return o, x, 'is_string(%r)' % (v,)
     if fn == 'sigstr':
         import ast
         pos = pick([list, tuple], 'pos-cont')([ast.literal_eval(t) for t in a['pos']])
@@ -1031,7 +1039,7 @@ def consumers(paths, seed, stats, thorough):
             a = case['a']
             shp = a['shape']
             rej = only_err(case['allow']) and case['cell'].startswith('int-')
-            if not shp or (hsh(line) % (2 * step) and not rej) or a['ind']['k'] == 'list' and not a['ind']['v']:
+            if not shp or 0 in shp or (hsh(line) % (2 * step) and not rej) or a['ind']['k'] == 'list' and not a['ind']['v']:
                 continue
             items = a['ind']['v'] if a['ind']['k'] == 'list' else [a['ind']]
             if any(i['k'] == 'slice' and i['v'][2] not in (NONE, 1, 2) for i in items):
@@ -1400,11 +1408,11 @@ def run_stage(ctx):
     fbogus = ex.submit(tlc_retry, 'MC_Norm.tla', 'MC_Norm_bogus.cfg', ctx.work, dict(env, NORM_GROUP='hist'), 2)
 
     # ---- code -> spec events are produced while TLC runs
-    nrand = 6000 if thorough else 1200
+    nrand = 20000 if thorough else 1200
     events = doc_examples()
     ndoc = len(events)
     events += random_events(ctx.seed, nrand)
-    events += random_hist_events(ctx.seed, 1200 if thorough else 240)
+    events += random_hist_events(ctx.seed, 4000 if thorough else 240)
     lap('drivers')
 
     # ---- spec -> code: replay of every exported case / history state (done by the group jobs)
@@ -1546,5 +1554,32 @@ def replay(body):
                 print('re-executed:', desc, '->', dumps(o))
         print('VIOLATION reproduced (%d of 6 spellings)' % bad if bad else 'not reproduced literally on this tree')
         return 1 if bad else 0
+    if 'recorded' in det and det['recorded'].get('fn') not in (None, 'hist'):
+        ev = det['recorded']
+        print('recorded   :', dumps({'fn': ev['fn'], 'a': ev['a'], 'o': ev['o']}))
+        print('rejected by Trace_Norm with', det.get('clauses'))
+        same = 0
+        for var in range(6):
+            o, x, desc = make_call(ev['fn'], ev['a'], Pick(var * 37))
+            same += o == ev['o']
+            print('re-executed:', desc, '->', dumps(o))
+        print('VIOLATION reproduced (%d of 6 spellings give the recorded outcome)' % same if same else
+              'the recorded outcome is not reproduced on this tree')
+        return 1 if same else 0
+    if 'state' in det:
+        st = det['state']
+        print('machine    :', st['m'], ' target:', det.get('target'))
+        print('history    :', dumps(st['hist']))
+        print('expected   :', dumps(st['st']))
+        print('recorded   :', dumps(det.get('observed')))
+        if st['m'] in ('wa-alias', 'wa-snap'):
+            print('re-executed:', dumps(run_wa(det['target'], st['hist'])[1]))
+        elif st['m'] == 'rng':
+            print('re-executed:', dumps(run_rng(st['hist'])))
+        elif st['m'] == 'po':
+            print('re-executed:', dumps(run_po(st['hist'])))
+        else:
+            print('re-executed:', dumps(run_cache(st['hist'])))
+        return 1
     print(dumps(det, indent=1)[:3000])
     return 1
